@@ -144,6 +144,9 @@ def runtime_namespace(extra=None):
         o = getattr(bb, n)
         if isinstance(o, type):
             ns[n] = o
+    from numba_scfg.core import utils as _ut
+    for n in ('is_conditional_jump', 'is_unconditional_jump', 'is_exiting', '_next_inst_offset', '_prev_inst_offset', '_cond_jump', '_uncond_jump', '_terminating'):
+        ns[n] = getattr(_ut, n)
     ns['issubclass_synthetic'] = lambda c: isinstance(c, type) and issubclass(c, bb.SyntheticBlock)
     if extra:
         ns.update(extra)
